@@ -1116,6 +1116,19 @@ def check_into(rep, prop, tier, rng, module=None, merge=False):
         return
     work = os.path.join(vlib.BUILD, "work", prop)
     results = P.run_scenarios(scns, exe, drv, work, tier)
+    # a scenario that disagrees or fails an oracle is run once more, alone: only what reproduces is reported
+    # (the first run shares the machine with eleven other clients and peers; real sockets under load can time out)
+    def is_bad(scn, res):
+        if correspondence(scn, res, spec["proj"]):
+            return True
+        return any(ORACLES[o](scn, res) for o in spec["oracles"])
+    bad = [i for i in range(len(scns)) if is_bad(scns[i], results[i])]
+    if bad and len(bad) <= 60:
+        again = P.run_scenarios([scns[i] for i in bad], exe, drv, work, tier + "-again", nworkers=1)
+        for i, r in zip(bad, again):
+            if not is_bad(scns[i], r):
+                rep.notes.append("scenario %d disagreed in the parallel run and agreed when re-run alone (load): not reported" % i)
+            results[i] = r
     ndis, examples, nontriv = 0, [], 0
     for si, (scn, res) in enumerate(zip(scns, results)):
         for log in res["peer"]:
